@@ -9,6 +9,6 @@ require (
 
 require golang.org/x/text v0.14.0
 
-require github.com/emersion/go-sasl v0.0.0-20231106173351-e73c9f7bad43 // indirect
+require github.com/emersion/go-sasl v0.0.0-20231106173351-e73c9f7bad43
 
 replace github.com/emersion/go-imap/v2 => /repo
